@@ -44,7 +44,7 @@ BUDGET = {'quick': (300, 16), 'thorough': (6000, 16)}
 OPS = ['append', 'append', 'append', 'multiappend', 'copy', 'uidcopy', 'move',
        'uidmove', 'expunge-highest', 'expunge-highest', 'expunge-some',
        'rename', 'recreate', 'select', 'status', 'restart', 'deliver',
-       'deliver']
+       'deliver', 'check', 'check']
 BOXES = [b'INBOX', b'A', b'B']
 
 
@@ -374,6 +374,15 @@ def run_case(case: dict[str, Any]) -> CaseOut:
                     if m and un:
                         note_uidnext(int(m.group(1)), int(un.group(1)), box,
                                      where)
+            elif op == 'check':
+                # housekeeping (CHECK) on the selected mailbox
+                if w.sel.get(k) != box:
+                    got, ok = w.cmd(k, b'SELECT ' + box)
+                    if not ok:
+                        continue
+                    w.sel[k] = box
+                w.cmd(k, b'CHECK')
+                out.label('check')
             elif op == 'status':
                 got, ok = w.cmd(k, b'STATUS ' + box + b' (UIDNEXT '
                                 b'UIDVALIDITY)')
